@@ -54,6 +54,16 @@ type GetPromptResult struct {
 }
 
 // PromptListChangedNotification represents a notification that the prompt list has changed
+// MarshalJSON encodes nil Messages as an empty array: "messages" is an array in the MCP schema.
+func (r GetPromptResult) MarshalJSON() ([]byte, error) {
+	type plain GetPromptResult
+	p := plain(r)
+	if p.Messages == nil {
+		p.Messages = []PromptMessage{}
+	}
+	return json.Marshal(p)
+}
+
 type PromptListChangedNotification struct {
 	Notification
 }
